@@ -215,6 +215,43 @@ func runC26(c *core.Ctx) {
 		}
 	}
 	if cell == nil {
+		// the positioning moved into a function of the package that takes the position
+		// as a parameter: seekX(tx, nextFrom) with Cursor.Seek(uint64tob(from)) inside
+		for _, cl := range an.WithClosures(run) {
+			for _, ci := range an.AllCalls(cl, false) {
+				g := ci.Common().StaticCallee()
+				if g == nil || len(g.Blocks) == 0 || g.Pkg != run.Pkg {
+					continue
+				}
+				for i, a := range ci.Common().Args {
+					if i >= len(g.Params) {
+						continue
+					}
+					u, ok := an.Unwrap(a).(*ssa.UnOp)
+					if !ok || u.Op != token.MUL {
+						continue
+					}
+					var al *ssa.Alloc
+					switch x := u.X.(type) {
+					case *ssa.FreeVar:
+						al, _ = bindingOf(x).(*ssa.Alloc)
+					case *ssa.Alloc:
+						al = x
+					}
+					if al == nil || al.Parent() != run {
+						continue
+					}
+					p := g.Params[i]
+					for _, seek := range an.CallsTo(g, false, "go.etcd.io/bbolt.Cursor.Seek") {
+						if an.MentionsValue(seek.Common().Args[len(seek.Common().Args)-1], p) {
+							cell = al
+						}
+					}
+				}
+			}
+		}
+	}
+	if cell == nil {
 		c.Unk("C26.c", "DOM", "run:delete:cursor", c.P.Pos(run.Pos()), "the read cursor variable was not found in run")
 		return
 	}
